@@ -228,40 +228,56 @@ Proof.
   cbn [chrs List.map]. reflexivity.
 Qed.
 
-(* to_ttml_length then parse_length: the value rounded to six significant digits, the same unit -- whenever format(x,"g")
-   stays in fixed notation *)
-Theorem len_roundtrip x u : 0 <= u <= 5 -> uses_exponent x = false ->
+(* ---- to_ttml_number: sign, integer part and fraction digits of the value rounded to six significant digits --------------------- *)
+Lemma print_num_spec x : exists neg ip fr,
+  print_num x = print_fixed neg ip fr /\ 0 <= ip /\ all_dec fr = true /\
+  ((if neg then (- dec_value (print_nat ip) (dchars fr))%Q else dec_value (print_nat ip) (dchars fr)) == round6 x)%Q.
+Proof.
+  unfold print_num, round6. pose proof (round6_parts_sig x) as Hs.
+  destruct (round6_parts x) as [[neg sig] ex]. unfold fixed_parts.
+  destruct (0 <? ex) eqn:Epos.
+  - (* an integer: sig * 10^ex *)
+    exists neg, (sig * pow10z (Z.to_nat ex)), []. pose proof (pow10z_pos (Z.to_nat ex)) as Hp.
+    assert (HI : 0 <= sig * pow10z (Z.to_nat ex)) by nia.
+    split; [reflexivity|]. split; [exact HI|]. split; [reflexivity|].
+    replace (0 <=? ex) with true by lia.
+    assert (Hv : (dec_value (print_nat (sig * pow10z (Z.to_nat ex))) (dchars []) == inject_Z (sig * pow10z (Z.to_nat ex)))%Q).
+    { change (print_nat (sig * pow10z (Z.to_nat ex))) with (chrs (nat_digits (sig * pow10z (Z.to_nat ex)))). change (dchars []) with (chrs []).
+      rewrite dec_value_number. unfold number. destruct (nat_digits_ok _ HI) as [HnI _]. rewrite HnI.
+      unfold Qeq, Qplus, inject_Z. cbn. lia. }
+    destruct neg; rewrite Hv; unfold Qeq, Qopp, inject_Z; cbn [Qnum Qden]; lia.
+  - set (p := Z.to_nat (- ex)). set (ip := sig / pow10z p). set (F := sig mod pow10z p).
+    pose proof (pow10z_pos p) as Hp.
+    assert (HF : 0 <= F < pow10z p) by (apply Z.mod_pos_bound; lia).
+    assert (HI : 0 <= ip) by (apply Z.div_pos; lia).
+    destruct (frac_digits_spec p F HF) as [Fn [Fl Fd]].
+    pose proof (rstrip0_dec _ Fd) as Hfr.
+    exists neg, ip, (rstrip0 (frac_digits p F)). split; [reflexivity|]. split; [exact HI|]. split; [exact Hfr|].
+    assert (Hv : (dec_value (print_nat ip) (dchars (rstrip0 (frac_digits p F))) == inject_Z ip + Qmake F (pow10 p))%Q).
+    { change (print_nat ip) with (chrs (nat_digits ip)). change (dchars (rstrip0 (frac_digits p F))) with (chrs (rstrip0 (frac_digits p F))).
+      rewrite dec_value_number. unfold number.
+      destruct (nat_digits_ok ip HI) as [HnI _]. rewrite HnI.
+      change (Qmake (nat_of (rstrip0 (frac_digits p F))) (ten_to (length (rstrip0 (frac_digits p F))))) with (fv (rstrip0 (frac_digits p F))).
+      rewrite rstrip0_fv. unfold fv. rewrite Fn. rewrite Fl. rewrite <- (pow10_ten_to p). reflexivity. }
+    assert (Hsum : (inject_Z ip + Qmake F (pow10 p) == Qmake sig (pow10 p))%Q).
+    { unfold Qeq, Qplus, inject_Z. cbn [Qnum Qden]. rewrite Pos.mul_1_l. fold (pow10z p).
+      pose proof (Z.div_mod sig (pow10z p) ltac:(lia)) as Hdm. fold ip F in Hdm.
+      set (P := pow10z p) in *. clearbody P ip F. rewrite Hdm. ring. }
+    destruct (0 <=? ex) eqn:E0.
+    + assert (ex = 0) by lia. subst ex.
+      destruct neg; rewrite Hv, Hsum; change (pow10 p) with 1%positive; change (pow10z (Z.to_nat 0)) with 1;
+        unfold Qeq, Qopp, inject_Z; cbn [Qnum Qden]; lia.
+    + destruct neg; rewrite Hv, Hsum; unfold Qeq, Qopp; cbn [Qnum Qden]; lia.
+Qed.
+
+(* to_ttml_length then parse_length: the value rounded to six significant digits, the same unit - for every rational and every unit *)
+Theorem len_roundtrip x u : 0 <= u <= 5 ->
   exists v, parse_len (print_len (mkLen x u)) = Some (mkLen v u) /\ (v == round6 x)%Q.
 Proof.
-  intros Hu Hex. unfold print_len, format_g, uses_exponent, round6 in *. cbn [l_val l_unit].
-  pose proof (round6_parts_sig x) as Hs.
-  destruct (round6_parts x) as [[neg sig] ex].
-  unfold format_g_parts. rewrite Hex.
-  apply orb_false_iff in Hex as [Hex1 Hex2].
-  set (p := Z.to_nat (- ex)). set (I := sig / pow10z p). set (F := sig mod pow10z p).
-  pose proof (pow10z_pos p) as Hp.
-  assert (HF : 0 <= F < pow10z p) by (apply Z.mod_pos_bound; lia).
-  assert (HI : 0 <= I) by (apply Z.div_pos; lia).
-  destruct (frac_digits_spec p F HF) as [Fn [Fl Fd]].
-  pose proof (rstrip0_dec _ Fd) as Hfr.
-  rewrite <- !app_assoc.
-  rewrite (parse_fixed neg I (rstrip0 (frac_digits p F)) u HI Hfr Hu).
-  eexists. split; [reflexivity|].
-  assert (Hv : (dec_value (print_nat I) (dchars (rstrip0 (frac_digits p F))) == inject_Z I + Qmake F (pow10 p))%Q).
-  { change (print_nat I) with (chrs (nat_digits I)). change (dchars (rstrip0 (frac_digits p F))) with (chrs (rstrip0 (frac_digits p F))).
-    rewrite dec_value_number. unfold number.
-    destruct (nat_digits_ok I HI) as [HnI _]. rewrite HnI.
-    change (Qmake (nat_of (rstrip0 (frac_digits p F))) (ten_to (length (rstrip0 (frac_digits p F))))) with (fv (rstrip0 (frac_digits p F))).
-    rewrite rstrip0_fv. unfold fv. rewrite Fn. rewrite Fl. rewrite <- (pow10_ten_to p). reflexivity. }
-  assert (Hsum : (inject_Z I + Qmake F (pow10 p) == Qmake sig (pow10 p))%Q).
-  { unfold Qeq, Qplus, inject_Z. cbn [Qnum Qden]. rewrite Pos.mul_1_l. fold (pow10z p).
-    pose proof (Z.div_mod sig (pow10z p) ltac:(lia)) as Hdm. fold I F in Hdm.
-    set (P := pow10z p) in *. clearbody P I F. rewrite Hdm. ring. }
-  destruct (0 <=? ex) eqn:E0.
-  - assert (ex = 0) by lia. subst ex.
-    destruct neg; rewrite Hv, Hsum; change (pow10 p) with 1%positive; change (pow10z (Z.to_nat 0)) with 1;
-      unfold Qeq, Qopp, inject_Z; cbn [Qnum Qden]; lia.
-  - destruct neg; rewrite Hv, Hsum; unfold Qeq, Qopp; cbn [Qnum Qden]; lia.
+  intros Hu. unfold print_len. cbn [l_val l_unit].
+  destruct (print_num_spec x) as [neg [ip [fr [Hp [HI [Hfr Hv]]]]]]. rewrite Hp. unfold print_fixed.
+  rewrite <- !app_assoc. rewrite (parse_fixed neg ip fr u HI Hfr Hu).
+  eexists. split; [reflexivity|exact Hv].
 Qed.
 
 Ltac unfold_props :=
@@ -272,13 +288,13 @@ Ltac unfold_props :=
     P_WritingMode in *; cbn [Z.eqb Pos.eqb orb] in *.
 
 (* ---- length-valued properties ------------------------------------------------------------------------------------------- *)
-Definition valid_len (l : len) : Prop := 0 <= l_unit l <= 5 /\ uses_exponent (l_val l) = false.
+Definition valid_len (l : len) : Prop := 0 <= l_unit l <= 5.
 Definition len_equiv (l l' : len) : Prop := l_unit l' = l_unit l /\ (l_val l' == round6 (l_val l))%Q.
 
 Lemma len_rt l : valid_len l -> exists l', parse_len (print_len l) = Some l' /\ len_equiv l l'.
 Proof.
-  intros [Hu Hx]. destruct l as [x u]. cbn [l_val l_unit] in *.
-  destruct (len_roundtrip x u Hu Hx) as [v [H1 H2]]. exists (mkLen v u). split; [exact H1|]. split; [reflexivity|exact H2].
+  intros Hu. unfold valid_len in Hu. destruct l as [x u]. cbn [l_val l_unit] in *.
+  destruct (len_roundtrip x u Hu) as [v [H1 H2]]. exists (mkLen v u). split; [exact H1|]. split; [reflexivity|exact H2].
 Qed.
 
 (* characters of a printed length: it starts with '-' or a digit and contains neither a space nor a comma *)
@@ -290,36 +306,39 @@ Proof.
   apply andb_true_iff in H as [H1 H2]. rewrite (IH H2), andb_true_r. unfold is_dec in H1. unfold plain. lia.
 Qed.
 
+Lemma print_fixed_shape neg ip fr : 0 <= ip -> all_dec fr = true ->
+  forallb plain (print_fixed neg ip fr) = true /\
+  exists c rest, print_fixed neg ip fr = c :: rest /\ ((c =? 45) || is_digit c = true).
+Proof.
+  intros HI Hfr. unfold print_fixed. destruct (nat_digits_ok ip HI) as [_ [Hdec Hne]]. split.
+  - pose proof (dchars_plain _ Hfr) as Hfrp.
+    assert (Hfrac : forallb plain (match fr with [] => [] | _ :: _ => 46 :: dchars fr end) = true).
+    { destruct fr as [|z zl]; [reflexivity|].
+      change (forallb plain (46 :: dchars (z :: zl))) with (plain 46 && forallb plain (dchars (z :: zl))). rewrite Hfrp. reflexivity. }
+    rewrite !forallb_app. rewrite Hfrac. change (print_nat ip) with (dchars (nat_digits ip)). rewrite (dchars_plain _ Hdec).
+    destruct neg; reflexivity.
+  - change (print_nat ip) with (chrs (nat_digits ip)). destruct (nat_digits ip) as [|d ds]; [discriminate|].
+    destruct neg; cbn [app chrs List.map].
+    + eexists _, _. split; reflexivity.
+    + eexists _, _. split; [reflexivity|]. unfold all_dec in Hdec. cbn [forallb] in Hdec. apply andb_true_iff in Hdec as [A _].
+      apply orb_true_iff. right. apply is_dec_digit. exact A.
+Qed.
+
 Lemma print_len_shape l : valid_len l ->
   forallb plain (print_len l) = true /\
   exists c rest, print_len l = c :: rest /\ ((c =? 45) || is_digit c = true).
 Proof.
-  intros [Hu Hx]. destruct l as [x u]. cbn [l_val l_unit] in *.
-  unfold print_len, format_g, uses_exponent in *. cbn [l_val l_unit].
-  pose proof (round6_parts_sig x) as Hs.
-  destruct (round6_parts x) as [[neg sig] ex]. unfold format_g_parts. rewrite Hx.
-  set (p := Z.to_nat (- ex)). set (I := sig / pow10z p). set (F := sig mod pow10z p).
-  pose proof (pow10z_pos p) as Hp.
-  assert (HF : 0 <= F < pow10z p) by (apply Z.mod_pos_bound; lia).
-  assert (HI : 0 <= I) by (apply Z.div_pos; lia).
-  destruct (frac_digits_spec p F HF) as [_ [_ Fd]]. pose proof (rstrip0_dec _ Fd) as Hfr.
-  destruct (nat_digits_ok I HI) as [_ [Hdec Hne]].
+  intros Hu. unfold valid_len in Hu. destruct l as [x u]. cbn [l_val l_unit] in *.
+  unfold print_len. cbn [l_val l_unit].
+  destruct (print_num_spec x) as [neg [ip [fr [Hp [HI [Hfr _]]]]]]. rewrite Hp.
+  destruct (print_fixed_shape neg ip fr HI Hfr) as [Hpl [c [rest [E Hc]]]].
   pose proof (unit_ok_of u Hu) as Huo. unfold unit_ok in Huo.
   destruct (unit_text u) as [|uc ur] eqn:Eu; [discriminate|].
   repeat (apply andb_true_iff in Huo as [Huo ?]).
   split.
   - assert (Hup : forallb plain (uc :: ur) = true) by (match goal with A : forallb _ (uc :: ur) = true |- _ => exact A end).
-    pose proof (dchars_plain _ Hfr) as Hfrp.
-    assert (Hfrac : forallb plain (match rstrip0 (frac_digits p F) with [] => [] | _ :: _ => 46 :: dchars (rstrip0 (frac_digits p F)) end) = true).
-    { destruct (rstrip0 (frac_digits p F)) as [|z zl]; [reflexivity|].
-      change (forallb plain (46 :: dchars (z :: zl))) with (plain 46 && forallb plain (dchars (z :: zl))). rewrite Hfrp. reflexivity. }
-    rewrite !forallb_app. rewrite Hup, Hfrac. change (print_nat I) with (dchars (nat_digits I)). rewrite (dchars_plain _ Hdec).
-    destruct neg; reflexivity.
-  - change (print_nat I) with (chrs (nat_digits I)). destruct (nat_digits I) as [|d ds]; [discriminate|].
-    destruct neg; cbn [app chrs List.map].
-    + eexists _, _. split; reflexivity.
-    + eexists _, _. split; [reflexivity|]. unfold all_dec in Hdec. cbn [forallb] in Hdec. apply andb_true_iff in Hdec as [A _].
-      apply orb_true_iff. right. apply is_dec_digit. exact A.
+    rewrite forallb_app, Hpl, Hup. reflexivity.
+  - rewrite E. cbn [app]. eexists _, _. split; [reflexivity|exact Hc].
 Qed.
 
 Lemma printed_not_keyword l (k : text) kc kr : valid_len l -> k = kc :: kr -> (kc =? 45) || is_digit kc = false ->
@@ -441,21 +460,13 @@ Proof.
     cbv iota. rewrite color_roundtrip by assumption. reflexivity.
 Qed.
 
-(* the writer's value printers raise AttributeError only on tts:textEmphasis none (finding none-special-value) and on the special
-   value normal outside tts:lineHeight (not a valid model value) *)
-Theorem print_attribute_error p v : print_style p v = WErr 3 ->
-  (v = SNone /\ p = P_TextEmphasis) \/ (v = SNormal /\ p <> P_LineHeight).
+(* the writer's value printers never raise AttributeError on a value the model accepts: the only case is the special value
+   normal outside tts:lineHeight, which is not a valid model value *)
+Theorem print_attribute_error p v : print_style p v = WErr 3 -> v = SNormal /\ p <> P_LineHeight.
 Proof.
-  destruct v; cbn [print_style]; try discriminate.
-  - destruct (p =? P_BackgroundColor); [destruct (color_eqb c transparent)|]; discriminate.
-  - destruct (enum_table p); [destruct (enum_value l ord)|]; discriminate.
-  - destruct (p =? P_LineHeight) eqn:E; [discriminate|]. intros _. right. split; [reflexivity|]. intro H. subst p. discriminate.
-  - destruct (p =? P_TextEmphasis) eqn:E; [|discriminate]. intros _. left. apply Z.eqb_eq in E. auto.
-  - destruct (enum_value enum_HEdge he), (enum_value enum_VEdge ve); discriminate.
-  - destruct (p =? P_Shear); discriminate.
-  - destruct (p =? P_Shear); discriminate.
-  - destruct (enum_value enum_TextEmphasisStyle style), (enum_value enum_TextEmphasisPosition pos); discriminate.
-  - destruct (enum_value enum_RubyReservePosition pos); discriminate.
+  destruct v; cbn [print_style]; try discriminate;
+    try (repeat match goal with |- context [match ?e with _ => _ end] => destruct e end; discriminate).
+  destruct (p =? P_LineHeight) eqn:E; [discriminate|]. intros _. split; [reflexivity|]. intro H. subst p. discriminate.
 Qed.
 
 (* ---- tts:textDecoration: the 27 values (finite domain, decided) ---------------------------------------------------------------- *)
@@ -464,24 +475,21 @@ Definition obool_eqb' (a b : option bool) : bool := match a, b with None, None =
 Definition text_dec_ok (u l o : option bool) : bool :=
   match print_style P_TextDecoration (STextDec u l o) with
   | WAttr s => match read_style P_TextDecoration s with Some (STextDec u' l' o') => obool_eqb' u u' && obool_eqb' l l' && obool_eqb' o o' | _ => false end
+  | WSkip => match u, l, o with None, None, None => true | _, _, _ => false end      (* no component: nothing to write *)
   | _ => false
   end.
 Lemma text_dec_all : forallb (fun u => forallb (fun l => forallb (fun o => text_dec_ok u l o) ob3) ob3) ob3 = true.
 Proof. vm_compute. reflexivity. Qed.
 
+(* every value with at least one component is written and read back; the value without any component (which changes nothing when
+   it is specified on an element) is not written *)
 Theorem text_decoration_roundtrip u l o :
-  exists s, print_style P_TextDecoration (STextDec u l o) = WAttr s /\ read_style P_TextDecoration s = Some (STextDec u l o).
+  match u, l, o with
+  | None, None, None => print_style P_TextDecoration (STextDec u l o) = WSkip
+  | _, _, _ => exists s, print_style P_TextDecoration (STextDec u l o) = WAttr s /\ read_style P_TextDecoration s = Some (STextDec u l o)
+  end.
 Proof.
-  assert (H : text_dec_ok u l o = true).
-  { destruct u as [[|]|], l as [[|]|], o as [[|]|]; vm_compute; reflexivity. }
-  unfold text_dec_ok in H.
-  destruct (print_style P_TextDecoration (STextDec u l o)) as [s| |]; try discriminate.
-  exists s. split; [reflexivity|].
-  destruct (read_style P_TextDecoration s) as [v|]; [|discriminate]. destruct v; try discriminate.
-  apply andb_true_iff in H as [H H3]. apply andb_true_iff in H as [H1 H2].
-  assert (E : forall a b, obool_eqb' a b = true -> a = b).
-  { intros [[|]|] [[|]|]; simpl; congruence. }
-  rewrite (E _ _ H1), (E _ _ H2), (E _ _ H3). reflexivity.
+  destruct u as [[|]|], l as [[|]|], o as [[|]|]; try reflexivity; eexists; split; vm_compute; reflexivity.
 Qed.
 
 (* ---- tts:rubyReserve and tts:textOutline: a keyword / a colour, and a length ------------------------------------------------- *)
@@ -592,30 +600,33 @@ Proof.
   apply andb_true_iff in H as [H1 H2]. rewrite (IH H2), andb_true_r. unfold is_dec in H1. unfold plain_ws. lia.
 Qed.
 
+Lemma print_fixed_plain_ws neg ip fr : 0 <= ip -> all_dec fr = true ->
+  forallb plain_ws (print_fixed neg ip fr) = true /\ print_fixed neg ip fr <> [].
+Proof.
+  intros HI Hfr. unfold print_fixed. destruct (nat_digits_ok ip HI) as [_ [Hdec Hne]].
+  pose proof (dchars_plain_ws _ Hfr) as Hfrp.
+  assert (Hfrac : forallb plain_ws (match fr with [] => [] | _ :: _ => 46 :: dchars fr end) = true).
+  { destruct fr as [|z zl]; [reflexivity|].
+    change (forallb plain_ws (46 :: dchars (z :: zl))) with (plain_ws 46 && forallb plain_ws (dchars (z :: zl))). rewrite Hfrp. reflexivity. }
+  split.
+  - rewrite !forallb_app. rewrite Hfrac. change (print_nat ip) with (dchars (nat_digits ip)). rewrite (dchars_plain_ws _ Hdec).
+    destruct neg; reflexivity.
+  - change (print_nat ip) with (chrs (nat_digits ip)). destruct (nat_digits ip) as [|d ds]; [discriminate|].
+    destruct neg; discriminate.
+Qed.
+
 Lemma print_len_plain_ws l : valid_len l -> forallb plain_ws (print_len l) = true /\ print_len l <> [].
 Proof.
-  intros [Hu Hx]. destruct l as [x u]. cbn [l_val l_unit] in *.
-  unfold print_len, format_g, uses_exponent in *. cbn [l_val l_unit].
-  pose proof (round6_parts_sig x) as Hs.
-  destruct (round6_parts x) as [[neg sig] ex]. unfold format_g_parts. rewrite Hx.
-  set (p := Z.to_nat (- ex)). set (I := sig / pow10z p). set (F := sig mod pow10z p).
-  pose proof (pow10z_pos p) as Hp.
-  assert (HF : 0 <= F < pow10z p) by (apply Z.mod_pos_bound; lia).
-  assert (HI : 0 <= I) by (apply Z.div_pos; lia).
-  destruct (frac_digits_spec p F HF) as [_ [_ Fd]]. pose proof (rstrip0_dec _ Fd) as Hfr.
-  destruct (nat_digits_ok I HI) as [_ [Hdec Hne]].
+  intros Hu. unfold valid_len in Hu. destruct l as [x u]. cbn [l_val l_unit] in *.
+  unfold print_len. cbn [l_val l_unit].
+  destruct (print_num_spec x) as [neg [ip [fr [Hp [HI [Hfr _]]]]]]. rewrite Hp.
+  destruct (print_fixed_plain_ws neg ip fr HI Hfr) as [P1 P2].
   assert (Hup : forallb plain_ws (unit_text u) = true).
   { pose proof units_plain_ws as A. rewrite forallb_forall in A. apply (A u).
     assert (u = 0 \/ u = 1 \/ u = 2 \/ u = 3 \/ u = 4 \/ u = 5) by lia. simpl. intuition. }
-  pose proof (dchars_plain_ws _ Hfr) as Hfrp.
-  assert (Hfrac : forallb plain_ws (match rstrip0 (frac_digits p F) with [] => [] | _ :: _ => 46 :: dchars (rstrip0 (frac_digits p F)) end) = true).
-  { destruct (rstrip0 (frac_digits p F)) as [|z zl]; [reflexivity|].
-    change (forallb plain_ws (46 :: dchars (z :: zl))) with (plain_ws 46 && forallb plain_ws (dchars (z :: zl))). rewrite Hfrp. reflexivity. }
   split.
-  - rewrite !forallb_app. rewrite Hup, Hfrac. change (print_nat I) with (dchars (nat_digits I)). rewrite (dchars_plain_ws _ Hdec).
-    destruct neg; reflexivity.
-  - change (print_nat I) with (chrs (nat_digits I)). destruct (nat_digits I) as [|d ds]; [discriminate|].
-    destruct neg; discriminate.
+  - rewrite forallb_app, P1, Hup. reflexivity.
+  - destruct (print_fixed neg ip fr); [contradiction|discriminate].
 Qed.
 
 Definition edge_ok (tbl : list (list Z * Z * list Z)) (names : list text) (o : Z) : bool :=
@@ -677,17 +688,8 @@ Proof.
   rewrite Ebh, Ebv. cbn [validate_style] in *. rewrite Lh2, Lv2, Hval. reflexivity.
 Qed.
 
-(* ---- tts:textShadow with one shadow (several shadows are the recorded finding textshadow-list) ----------------------------------- *)
+(* ---- tts:textShadow: any number of shadows, written "s1, s2, ..." and split on "," then on white space ------------------------- *)
 Definition nocomma (c : Z) : bool := negb (c =? 44).
-Lemma split_comma_none a : forallb nocomma a = true -> split_on 44 a [] = [a].
-Proof.
-  assert (G : forall cur, forallb nocomma a = true -> split_on 44 a cur = [cur ++ a]).
-  { induction a as [|c a IH]; intros cur H; cbn [split_on].
-    - rewrite app_nil_r. reflexivity.
-    - cbn [forallb] in H. apply andb_true_iff in H as [H1 H2]. unfold nocomma in H1.
-      replace (c =? 44) with false by lia. rewrite (IH _ H2). rewrite <- app_assoc. reflexivity. }
-  intro H. apply (G [] H).
-Qed.
 Lemma plain_nocomma a : forallb plain a = true -> forallb nocomma a = true.
 Proof.
   induction a as [|c a IH]; [reflexivity|]. cbn [forallb]. intro H. apply andb_true_iff in H as [H1 H2].
@@ -697,57 +699,135 @@ Qed.
 Lemma parse_len_color r g b a : parse_len (print_color (r, g, b, a)) = None.
 Proof. unfold print_color, parse_len. cbn [split_sign]. reflexivity. Qed.
 
-Lemma plain_join3 a b c : forallb plain a = true -> forallb plain b = true -> forallb plain c = true ->
-  split_on 32 (a ++ sp ++ b ++ sp ++ c) [] = [a; b; c].
+Lemma print_color_plain_ws r g b a : byte r -> byte g -> byte b -> byte a ->
+  forallb plain_ws (print_color (r, g, b, a)) = true /\ print_color (r, g, b, a) <> [].
 Proof.
-  intros Ha Hb Hc. unfold sp. cbn [app]. rewrite (split_plain_app _ _ Ha []), (split_plain_app _ _ Hb []), (split_plain _ Hc []). reflexivity.
+  intros Hr Hg Hb Ha. split; [|discriminate]. unfold print_color, hex2.
+  assert (Hh : forall d, 0 <= d < 16 -> plain_ws (hexd d) = true).
+  { intros d Hd. unfold hexd, plain_ws. destruct (d <? 10); lia. }
+  assert (H16 : forall c, byte c -> 0 <= c / 16 < 16 /\ 0 <= c mod 16 < 16) by (unfold byte; intros; lia).
+  destruct (H16 r Hr), (H16 g Hg), (H16 b Hb), (H16 a Ha).
+  destruct (a =? 255); cbn [app forallb]; rewrite !Hh by assumption; reflexivity.
 Qed.
-Lemma plain_join4 a b c d : forallb plain a = true -> forallb plain b = true -> forallb plain c = true -> forallb plain d = true ->
-  split_on 32 (a ++ sp ++ b ++ sp ++ c ++ sp ++ d) [] = [a; b; c; d].
+
+Lemma ws_join2 a b : forallb plain_ws a = true -> a <> [] -> forallb plain_ws b = true -> b <> [] ->
+  split_ws (a ++ sp ++ b) [] = [a; b].
+Proof. intros. unfold sp. cbn [app]. rewrite (split_ws_plain_app a _ H H0), (split_ws_plain b H1 H2 []). reflexivity. Qed.
+Lemma ws_join3 a b c : forallb plain_ws a = true -> a <> [] -> forallb plain_ws b = true -> b <> [] -> forallb plain_ws c = true -> c <> [] ->
+  split_ws (a ++ sp ++ b ++ sp ++ c) [] = [a; b; c].
+Proof. intros. unfold sp. cbn [app]. rewrite (split_ws_plain_app a _ H H0), (split_ws_plain_app b _ H1 H2), (split_ws_plain c H3 H4 []). reflexivity. Qed.
+Lemma ws_join4 a b c d : forallb plain_ws a = true -> a <> [] -> forallb plain_ws b = true -> b <> [] -> forallb plain_ws c = true -> c <> [] ->
+  forallb plain_ws d = true -> d <> [] -> split_ws (a ++ sp ++ b ++ sp ++ c ++ sp ++ d) [] = [a; b; c; d].
 Proof.
-  intros Ha Hb Hc Hd. unfold sp. cbn [app].
-  rewrite (split_plain_app _ _ Ha []), (split_plain_app _ _ Hb []), (split_plain_app _ _ Hc []), (split_plain _ Hd []). reflexivity.
+  intros. unfold sp. cbn [app].
+  rewrite (split_ws_plain_app a _ H H0), (split_ws_plain_app b _ H1 H2), (split_ws_plain_app c _ H3 H4), (split_ws_plain d H5 H6 []). reflexivity.
 Qed.
 
 Definition olen_equiv (a b : option len) : Prop := match a, b with Some x, Some y => len_equiv x y | None, None => True | _, _ => False end.
 Definition ovalid (a : option len) : Prop := match a with Some x => valid_len x | None => True end.
 Definition obyte (c : option color) : Prop := match c with Some (r, g, b, a) => byte r /\ byte g /\ byte b /\ byte a | None => True end.
 
-Theorem text_shadow_single_roundtrip x y blur c : valid_len x -> valid_len y -> ovalid blur -> obyte c ->
-  read_style P_TextShadow T_none = Some SNone /\
-  exists s, print_style P_TextShadow (SShadows [(x, y, blur, c)]) = WAttr s /\
-  exists x' y' blur', read_style P_TextShadow s = Some (SShadows [(x', y', blur', c)]) /\
-    len_equiv x x' /\ len_equiv y y' /\ olen_equiv blur blur'.
+Definition shadow := (len * len * option len * option color)%type.
+Definition valid_shadow (s : shadow) : Prop := let '(x, y, blur, c) := s in valid_len x /\ valid_len y /\ ovalid blur /\ obyte c.
+Definition shadow_equiv (s s' : shadow) : Prop :=
+  let '(x, y, blur, c) := s in let '(x', y', blur', c') := s' in len_equiv x x' /\ len_equiv y y' /\ olen_equiv blur blur' /\ c' = c.
+
+(* one shadow: printed, then split on white space and parsed; the printed text has no comma, starts with '-' or a digit *)
+Lemma parse_shadow_print s : valid_shadow s ->
+  (exists s', parse_shadow (print_shadow s) = Some s' /\ shadow_equiv s s') /\
+  forallb nocomma (print_shadow s) = true /\
+  exists c0 rest, print_shadow s = c0 :: rest /\ ((c0 =? 45) || is_digit c0 = true).
 Proof.
-  intros Hx Hy Hb Hc. split; [reflexivity|].
+  destruct s as [[[x y] blur] c]. intros [Hx [Hy [Hb Hc]]].
   destruct (len_rt x Hx) as [x' [X1 X2]]. destruct (len_rt y Hy) as [y' [Y1 Y2]].
   destruct (print_len_shape x Hx) as [Px [c0 [rest [Ex Hc0]]]]. destruct (print_len_shape y Hy) as [Py _].
-  eexists. split; [reflexivity|]. cbn [List.map join_with print_shadow].
-  assert (Hnone : forall tl, text_eqb (print_len x ++ tl) T_none = false).
-  { intro tl. rewrite Ex. unfold T_none. cbn [app text_eqb]. destruct (c0 =? 110) eqn:E; [|reflexivity].
-    apply Z.eqb_eq in E. subst c0. discriminate. }
+  destruct (print_len_plain_ws x Hx) as [Wx Nx]. destruct (print_len_plain_ws y Hy) as [Wy Ny].
+  cbn [print_shadow].
+  split; [|split].
+  - destruct blur as [bl|], c as [[[[r g] b] a]|]; cbn [ovalid obyte] in *; unfold parse_shadow.
+    + destruct Hc as [Hr [Hg [Hbb Ha]]]. destruct (len_rt bl Hb) as [bl' [B1 B2]]. destruct (print_len_plain_ws bl Hb) as [Wb Nb].
+      destruct (print_color_plain_ws r g b a Hr Hg Hbb Ha) as [Wc Nc].
+      rewrite <- !app_assoc. rewrite (ws_join4 _ _ _ _ Wx Nx Wy Ny Wb Nb Wc Nc). rewrite X1, Y1, B1, (color_roundtrip r g b a Hr Hg Hbb Ha).
+      eexists. split; [reflexivity|]. cbn. auto.
+    + destruct (len_rt bl Hb) as [bl' [B1 B2]]. destruct (print_len_plain_ws bl Hb) as [Wb Nb].
+      rewrite <- !app_assoc. rewrite app_nil_r. rewrite (ws_join3 _ _ _ Wx Nx Wy Ny Wb Nb). rewrite X1, Y1, B1.
+      eexists. split; [reflexivity|]. cbn. auto.
+    + destruct Hc as [Hr [Hg [Hbb Ha]]]. destruct (print_color_plain_ws r g b a Hr Hg Hbb Ha) as [Wc Nc].
+      cbn [app]. rewrite (ws_join3 _ _ _ Wx Nx Wy Ny Wc Nc). rewrite X1, Y1, parse_len_color, (color_roundtrip r g b a Hr Hg Hbb Ha).
+      eexists. split; [reflexivity|]. cbn. auto.
+    + cbn [app]. rewrite app_nil_r. rewrite (ws_join2 _ _ Wx Nx Wy Ny). cbn [omap2]. rewrite X1, Y1.
+      eexists. split; [reflexivity|]. cbn. auto.
+  - assert (Hbl : forallb nocomma (match blur with Some b => sp ++ print_len b | None => [] end) = true).
+    { destruct blur as [bl|]; [|reflexivity]. cbn [ovalid] in Hb. destruct (print_len_shape bl Hb) as [Pb _].
+      unfold sp. cbn [app forallb]. rewrite (plain_nocomma _ Pb). reflexivity. }
+    assert (Hcl : forallb nocomma (match c with Some k => sp ++ print_color k | None => [] end) = true).
+    { destruct c as [[[[r g] b] a]|]; [|reflexivity]. destruct Hc as [Hr [Hg [Hbb Ha]]].
+      unfold sp. cbn [app forallb]. rewrite (plain_nocomma _ (print_color_plain r g b a Hr Hg Hbb Ha)). reflexivity. }
+    rewrite !forallb_app, (plain_nocomma _ Px), (plain_nocomma _ Py), Hbl, Hcl. reflexivity.
+  - rewrite Ex. cbn [app]. eexists _, _. split; [reflexivity|exact Hc0].
+Qed.
+
+(* a space before a shadow (what follows the comma) is dropped by str.split() *)
+Lemma parse_shadow_lead t : parse_shadow (32 :: t) = parse_shadow t.
+Proof. reflexivity. Qed.
+
+Lemma split_comma_none a : forall cur, forallb nocomma a = true -> split_on 44 a cur = [cur ++ a].
+Proof.
+  induction a as [|c a IH]; intros cur H; cbn [split_on].
+  - rewrite app_nil_r. reflexivity.
+  - cbn [forallb] in H. apply andb_true_iff in H as [H1 H2]. unfold nocomma in H1.
+    replace (c =? 44) with false by lia. rewrite (IH _ H2). rewrite <- app_assoc. reflexivity.
+Qed.
+Lemma split_comma_app a b : forall cur, forallb nocomma a = true -> split_on 44 (a ++ 44 :: b) cur = (cur ++ a) :: split_on 44 b [].
+Proof.
+  induction a as [|c a IH]; intros cur H; cbn [split_on app].
+  - rewrite app_nil_r. reflexivity.
+  - cbn [forallb] in H. apply andb_true_iff in H as [H1 H2]. unfold nocomma in H1.
+    replace (c =? 44) with false by lia. rewrite (IH _ H2). rewrite <- app_assoc. reflexivity.
+Qed.
+
+(* the list of shadows after the first: each is preceded by ", " *)
+Lemma shadows_tail l : Forall valid_shadow l ->
+  forall pre, (pre = [] \/ pre = [32]) ->
+  l <> [] ->
+  exists l', all_some (List.map parse_shadow (split_on 44 (pre ++ join_with [44; 32] (List.map print_shadow l)) [])) = Some l' /\
+             Forall2 shadow_equiv l l'.
+Proof.
+  induction 1 as [|s l Hs Hl IH]; intros pre Hpre Hne; [contradiction|].
+  destruct (parse_shadow_print s Hs) as [[s' [P1 P2]] [Pn _]].
+  assert (Hpn : forallb nocomma (pre ++ print_shadow s) = true).
+  { destruct Hpre as [-> | ->]; [exact Pn|]. cbn [app forallb]. rewrite Pn. reflexivity. }
+  assert (Hps : parse_shadow (pre ++ print_shadow s) = Some s').
+  { destruct Hpre as [-> | ->]; [exact P1|]. cbn [app]. rewrite parse_shadow_lead. exact P1. }
+  destruct l as [|s2 l2].
+  - cbn [List.map join_with]. rewrite (split_comma_none _ [] Hpn). cbn [app List.map all_some]. rewrite Hps.
+    exists [s']. split; [reflexivity|]. constructor; [exact P2|constructor].
+  - destruct (IH [32] (or_intror eq_refl) ltac:(discriminate)) as [l' [A1 A2]].
+    set (tl := join_with [44; 32] (List.map print_shadow (s2 :: l2))) in *.
+    assert (Hj : join_with [44; 32] (List.map print_shadow (s :: s2 :: l2)) = print_shadow s ++ [44; 32] ++ tl) by reflexivity.
+    rewrite Hj.
+    replace (pre ++ print_shadow s ++ [44; 32] ++ tl) with ((pre ++ print_shadow s) ++ 44 :: ([32] ++ tl))
+      by (rewrite <- !app_assoc; reflexivity).
+    rewrite (split_comma_app _ _ [] Hpn). cbn [app List.map all_some]. rewrite Hps.
+    cbn [app] in A1. rewrite A1. exists (s' :: l'). split; [reflexivity|]. constructor; assumption.
+Qed.
+
+Theorem text_shadow_roundtrip l : Forall valid_shadow l -> l <> [] ->
+  read_style P_TextShadow T_none = Some SNone /\ print_style P_TextShadow SNone = WAttr T_none /\
+  exists s, print_style P_TextShadow (SShadows l) = WAttr s /\
+  exists l', read_style P_TextShadow s = Some (SShadows l') /\ Forall2 shadow_equiv l l'.
+Proof.
+  intros Hl Hne. split; [reflexivity|]. split; [reflexivity|].
+  eexists. split; [reflexivity|].
+  destruct (shadows_tail l Hl [] (or_introl eq_refl) Hne) as [l' [A1 A2]]. cbn [app] in A1.
+  exists l'. split; [|exact A2].
   unfold read_style, extract_style. unfold_props.
-  destruct blur as [bl|], c as [[[[r g] b] a]|]; cbn [ovalid obyte olen_equiv] in *.
-  - destruct Hc as [Hr [Hg [Hbb Ha]]]. destruct (len_rt bl Hb) as [bl' [B1 B2]]. destruct (print_len_shape bl Hb) as [Pb _].
-    pose proof (print_color_plain r g b a Hr Hg Hbb Ha) as Pc.
-    exists x', y', (Some bl'). split; [|repeat split; try apply X2; try apply Y2; try apply B2].
-    rewrite <- !app_assoc. rewrite Hnone.
-    rewrite split_comma_none by (rewrite !forallb_app, (plain_nocomma _ Px), (plain_nocomma _ Py), (plain_nocomma _ Pb), (plain_nocomma _ Pc); reflexivity).
-    cbn [List.map]. unfold parse_shadow. rewrite (plain_join4 _ _ _ _ Px Py Pb Pc). rewrite X1, Y1, B1, (color_roundtrip r g b a Hr Hg Hbb Ha). reflexivity.
-  - destruct (len_rt bl Hb) as [bl' [B1 B2]]. destruct (print_len_shape bl Hb) as [Pb _].
-    exists x', y', (Some bl'). split; [|repeat split; try apply X2; try apply Y2; try apply B2].
-    rewrite <- !app_assoc. rewrite app_nil_r. rewrite Hnone.
-    rewrite split_comma_none by (rewrite !forallb_app, (plain_nocomma _ Px), (plain_nocomma _ Py), (plain_nocomma _ Pb); reflexivity).
-    cbn [List.map]. unfold parse_shadow. rewrite (plain_join3 _ _ _ Px Py Pb). rewrite X1, Y1, B1. reflexivity.
-  - destruct Hc as [Hr [Hg [Hbb Ha]]]. pose proof (print_color_plain r g b a Hr Hg Hbb Ha) as Pc.
-    exists x', y', None. split; [|repeat split; try apply X2; try apply Y2; exact I].
-    cbn [app]. rewrite Hnone.
-    rewrite split_comma_none by (rewrite !forallb_app, (plain_nocomma _ Px), (plain_nocomma _ Py), (plain_nocomma _ Pc); reflexivity).
-    cbn [List.map]. unfold parse_shadow. rewrite (plain_join3 _ _ _ Px Py Pc). rewrite X1, Y1, parse_len_color, (color_roundtrip r g b a Hr Hg Hbb Ha). reflexivity.
-  - exists x', y', None. split; [|repeat split; try apply X2; try apply Y2; exact I].
-    cbn [app]. rewrite app_nil_r. rewrite Hnone.
-    rewrite split_comma_none by (rewrite !forallb_app, (plain_nocomma _ Px), (plain_nocomma _ Py); reflexivity).
-    cbn [List.map]. unfold parse_shadow. rewrite (split_two _ _ Px Py). cbn [omap2]. rewrite X1, Y1. reflexivity.
+  assert (Hnone : text_eqb (join_with [44; 32] (List.map print_shadow l)) T_none = false).
+  { destruct l as [|s l]; [contradiction|]. inversion Hl; subst.
+    destruct (parse_shadow_print s H1) as [_ [_ [c0 [rest [E Hc0]]]]].
+    cbn [List.map join_with]. destruct (List.map print_shadow l); rewrite E; unfold T_none; cbn [app text_eqb];
+      (destruct (c0 =? 110) eqn:E0; [apply Z.eqb_eq in E0; subst c0; discriminate|reflexivity]). }
+  rewrite Hnone, A1. reflexivity.
 Qed.
 
 (* ---- tts:textEmphasis: 7 styles x 3 positions, without colour (finite, decided) and with any RGBA8 colour --------------------- *)
@@ -828,3 +908,73 @@ Proof.
     destruct (read_style P_TextEmphasis s) as [v|]; [|discriminate]. destruct v; try discriminate.
     destruct c; [discriminate|]. apply andb_true_iff in H as [H1 H2]. apply Z.eqb_eq in H1, H2. subst. reflexivity.
 Qed.
+
+(* ---- numbers: tts:opacity, tts:luminanceGain (to_ttml_number, float()) and tts:shear (to_ttml_number "%", parse_length) ----------- *)
+Lemma parse_float_fixed neg ip fr : 0 <= ip -> all_dec fr = true ->
+  parse_float (print_fixed neg ip fr) =
+  Some (if neg then (- dec_value (print_nat ip) (dchars fr))%Q else dec_value (print_nat ip) (dchars fr)).
+Proof.
+  intros HI Hfr. unfold print_fixed, parse_float.
+  destruct (nat_digits_ok ip HI) as [_ [Hdec Hne]].
+  rewrite print_nat_chrs. destruct (nat_digits ip) as [|d ds] eqn:Ed; [discriminate|].
+  assert (Hd : is_dec d = true). { unfold all_dec in Hdec. cbn [forallb] in Hdec. apply andb_true_iff in Hdec as [A _]. exact A. }
+  set (tail := match fr with [] => [] | _ :: _ => 46 :: dchars fr end).
+  assert (Hsign : split_sign ((if neg then [45] else []) ++ chrs (d :: ds) ++ tail) = (neg, chrs (d :: ds) ++ tail)).
+  { destruct neg; [reflexivity|]. cbn [app chrs List.map split_sign].
+    unfold is_dec in Hd. replace (chr d =? 43) with false by (unfold chr; lia). replace (chr d =? 45) with false by (unfold chr; lia). reflexivity. }
+  rewrite Hsign.
+  assert (Htail : not_digit_head tail). { unfold tail. destruct fr; cbn [not_digit_head]; [exact I|reflexivity]. }
+  rewrite (span_digits_chrs (d :: ds) tail Hdec Htail).
+  unfold tail. destruct fr as [|f fr'].
+  - cbn [chrs List.map]. reflexivity.
+  - replace (46 =? 46) with true by reflexivity. rewrite dchars_chrs.
+    replace (chrs (f :: fr')) with (chrs (f :: fr') ++ []) at 1 by apply app_nil_r.
+    rewrite (span_digits_chrs (f :: fr') [] Hfr I). cbn [chrs List.map]. reflexivity.
+Qed.
+
+Theorem float_roundtrip x : exists v, parse_float (print_num x) = Some v /\ (v == round6 x)%Q.
+Proof.
+  destruct (print_num_spec x) as [neg [ip [fr [Hp [HI [Hfr Hv]]]]]]. rewrite Hp, (parse_float_fixed neg ip fr HI Hfr).
+  eexists. split; [reflexivity|exact Hv].
+Qed.
+
+(* tts:opacity and tts:luminanceGain: every number the model holds (an int, a Fraction, or a float taken as the rational it denotes)
+   is written in fixed notation with six significant digits and read back as that rounded value *)
+Theorem number_roundtrip p x : p = P_Opacity \/ p = P_LuminanceGain ->
+  exists s, print_style p (SFrac x) = WAttr s /\ exists v, read_style p s = Some (SFrac v) /\ (v == round6 x)%Q.
+Proof.
+  intros Hp. exists (print_num x). split; [destruct Hp as [-> | ->]; reflexivity|].
+  destruct (float_roundtrip x) as [v [H1 H2]]. exists v. split; [|exact H2].
+  unfold read_style, extract_style. destruct Hp as [-> | ->]; unfold_props; rewrite H1; reflexivity.
+Qed.
+Theorem integer_roundtrip p n : p = P_Opacity \/ p = P_LuminanceGain ->
+  exists s, print_style p (SInt n) = WAttr s /\ exists v, read_style p s = Some (SFrac v) /\ (v == round6 (inject_Z n))%Q.
+Proof.
+  intros Hp. exists (print_num (inject_Z n)). split; [destruct Hp as [-> | ->]; reflexivity|].
+  destruct (float_roundtrip (inject_Z n)) as [v [H1 H2]]. exists v. split; [|exact H2].
+  unfold read_style, extract_style. destruct Hp as [-> | ->]; unfold_props; rewrite H1; reflexivity.
+Qed.
+
+(* tts:shear: written as a percentage; the reader clamps to +-100 % (values beyond are the recorded finding shear-clamped) *)
+Lemma Qle_bool_compat a b c : (a == b)%Q -> Qle_bool a c = Qle_bool b c.
+Proof.
+  intro H. destruct (Qle_bool a c) eqn:E1, (Qle_bool b c) eqn:E2; try reflexivity.
+  - apply Qle_bool_iff in E1. rewrite H in E1. apply Qle_bool_iff in E1. congruence.
+  - apply Qle_bool_iff in E2. rewrite <- H in E2. apply Qle_bool_iff in E2. congruence.
+Qed.
+
+Theorem shear_roundtrip_partial x : Qle_bool (Qabs (round6 x)) (100 # 1) = true ->
+  exists s, print_style P_Shear (SFrac x) = WAttr s /\ exists v, read_style P_Shear s = Some (SFrac v) /\ (v == round6 x)%Q.
+Proof.
+  intro Hc. exists (print_len (mkLen x U_pct)). split; [reflexivity|].
+  destruct (len_roundtrip x U_pct ltac:(unfold U_pct; lia)) as [v [H1 H2]]. exists v. split; [|exact H2].
+  unfold read_style, extract_style. unfold_props. rewrite H1. cbn [l_unit l_val]. change (U_pct =? U_pct) with true. cbv iota.
+  assert (Hq : Qle_bool (Qabs v) (100 # 1) = true).
+  { rewrite <- Hc. apply Qle_bool_compat. rewrite H2. reflexivity. }
+  rewrite Hq. reflexivity.
+Qed.
+
+(* tts:textEmphasis, tts:rubyReserve, tts:textShadow, tts:textOutline: the special value none *)
+Theorem none_roundtrip p : p = P_TextEmphasis \/ p = P_RubyReserve \/ p = P_TextShadow \/ p = P_TextOutline ->
+  print_style p SNone = WAttr T_none /\ read_style p T_none = Some SNone /\ has_px p SNone = false.
+Proof. intros [-> | [-> | [-> | ->]]]; repeat split; reflexivity. Qed.
